@@ -330,13 +330,13 @@ end Mellon
 namespace Mellon
 
 /-- The three predictor families. -/
-inductive Family where
+inductive CondFamily where
   | full | landmarks | landmarksCholesky
   deriving Repr, DecidableEq, Inhabited
 
 /-- Dispatch of `inference.compute_conditional*`: no landmarks → full; a latent vector with as many
     rows as there are landmarks → Cholesky-latent; otherwise DTC. -/
-def dispatchFamily (nLandmarks : Option Nat) (preRows : Option Nat) : Family :=
+def dispatchFamily (nLandmarks : Option Nat) (preRows : Option Nat) : CondFamily :=
   match nLandmarks with
   | Option.none => .full
   | some m =>
